@@ -128,6 +128,31 @@ def pipe_checks(run, rng):
                     n, len(got), ", write raised " + box["exc"] if "exc" in box else ""),
                     {"direction": "to device", "size": n, "received": len(got)})
                 return
+        # a far end that stops reading for longer than the write time-out while more than the tty buffers hold is
+        # outstanding: the write may fail LOUDLY (an exception tells the caller) - it must not return normally
+        # with bytes missing
+        data = rng.bytes(65536)
+        box = {}
+
+        def slow_rd():
+            time.sleep(1.6)
+            box["got"] = p.master_read(len(data), 3.0)
+        rt = threading.Thread(target=slow_rd, daemon=True)
+        rt.start()
+        try:
+            p.dev.write(data)
+            box["returned"] = True
+        except Exception as e:  # noqa: BLE001
+            box["exc"] = "%s" % type(e).__name__
+        rt.join(8)
+        got = box.get("got", b"")
+        run.count("stalled-reader", ("stalled", len(data)))
+        if box.get("returned") and got != data:
+            run.violation("a write of %d bytes to a far end that paused 1.6 s returned normally although only %d bytes "
+                          "arrived" % (len(data), len(got)), {"direction": "to device", "size": len(data), "received": len(got)})
+            return
+        while p.master_read(4096, 0.2):      # drain what is left of a write that failed loudly
+            pass
         # padding
         for pad in (0, 3, 16):
             p.dev.write_padding = pad
